@@ -209,6 +209,10 @@ func buildWorld(rt *rapid.T, t *testing.T) *world {
 		return want
 	}
 	d1 := mkDen(A0, "plain")
+	if rapid.Bool().Draw(rt, "customMetadata") {
+		must(rt, "set denom metadata", c.Exec(tftypes.NewMsgSetDenomMetadata(chain.Actor(A0).String(), banktypes.Metadata{Description: "custom", Base: d1, Display: "plain", Name: "Plain", Symbol: "PLN",
+			DenomUnits: []*banktypes.DenomUnit{{Denom: d1, Exponent: 0}, {Denom: "plain", Exponent: 6}}})))
+	}
 	d2 := mkDen(A0, "handed")
 	d3 := mkDen(A0, "renounced")
 	d4 := mkDen(A1, "other")
@@ -520,6 +524,27 @@ func TestPropAuthz(t *testing.T) {
 	drv.Check(t, drv.Cfg{Name: "owner-only", Rule: rule, Quick: 250, Thorough: 20000}, func(rt *rapid.T, cs *drv.Case) {
 		w := buildWorld(rt, t)
 		c := w.c
+		// an upgrade by export/import replaces the module's state by InitGenesis(ExportGenesis()): on this module that is the
+		// identity (every record it writes is exported), so afterwards nobody may hold a power they did not hold before
+		if rapid.IntRange(0, 2).Draw(rt, "tokenfactoryGenesisRoundTrip") == 0 {
+			before := c.Digest()
+			gs := c.App.TokenFactoryKeeper.ExportGenesis(c.Ctx)
+			c.App.TokenFactoryKeeper.InitGenesis(c.Ctx, *gs)
+			if c.Digest() != before {
+				for d, a := range w.denAdmin {
+					md, _ := c.App.TokenFactoryKeeper.GetAuthorityMetadata(c.Ctx, d)
+					want := ""
+					if a >= 0 {
+						want = chain.Actor(a).String()
+					}
+					if md.Admin != want {
+						rt.Fatalf("after tokenfactory InitGenesis(ExportGenesis()) the admin of %s is %q, it was %q", d, md.Admin, want)
+					}
+				}
+				rt.Fatalf("tokenfactory InitGenesis(ExportGenesis()) changed the chain state (admins unchanged)")
+			}
+			cs.Class("tokenfactory-genesis-round-trip")
+		}
 		// several attempts per world (each on the unchanged world: failed txs leave no trace, controls run on branches)
 		n := 6
 		for i := 0; i < n; i++ {
